@@ -21,7 +21,10 @@ for d in $demos; do
 done
 pkgs=$(echo $pkgs | tr ' ' '\n' | sort -u | tr '\n' ' ')
 echo "demo files: $demos ; packages: $pkgs"
-run_demo() { (cd $WT && go test -vet=off -count=1 -run 'ZZ|Mutant|Demo' $pkgs 2>&1 | tail -3); }
+run_demo() { (cd $WT && for p in $pkgs; do
+    if ls $p/*_test.go >/dev/null 2>&1; then go test -vet=off -count=1 -run 'ZZ|Mutant|Demo' $p 2>&1 | tail -3
+    else if timeout 600 go run $p >/tmp/keep-run-$$.log 2>&1; then echo "ok  $p (program exit 0)"; else tail -2 /tmp/keep-run-$$.log; echo "FAIL $p (program exit non-zero)"; fi; rm -f /tmp/keep-run-$$.log; fi
+  done); }
 with=$(run_demo); echo "--- with change:"; echo "$with" | tail -2
 (cd $WT && git diff > /tmp/keep-applied-$$.patch && git checkout -q -- .)
 without=$(run_demo); echo "--- without change:"; echo "$without" | tail -2
